@@ -1782,11 +1782,22 @@ dt_dtcmp(struct dt_dt_s d1, struct dt_dt_s d2)
 	case DT_DUNK:
 	default:
 		goto try_time;
+	case DT_JDN:
+		/* day numbers with fractions */
+		if (d1.d.jdn < d2.d.jdn) {
+			return -1;
+		} else if (d1.d.jdn > d2.d.jdn) {
+			return 1;
+		}
+		goto try_time;
 	case DT_YMD:
 	case DT_DAISY:
+	case DT_LDN:
+	case DT_MDN:
 	case DT_BIZDA:
 	case DT_YWD:
 	case DT_YD:
+	case DT_UMMULQURA:
 		/* use arithmetic comparison */
 		if (d1.d.u < d2.d.u) {
 			return -1;
